@@ -64,9 +64,14 @@ def _random_cases(args):
     bad = []
     done = 0
     names = ["orth", "acute", "obtuse", "k3", "k3b"]
-    for _ in range(count):
+    sizes = [31, 32, 33, 63, 64, 65, 127, 128, 129, 130, 255, 256, 257]       # block / power-of-two boundaries, worst point last
+    for it in range(count):
         W = CONES[names[rs.randint(len(names))]]
         n = int(rs.randint(1, nmax + 1))
+        forced = None
+        if seed % 4 == 0 and it < len(sizes):
+            forced = sizes[it]
+            n = forced
         dim = 2
         if rs.rand() < 0.35:          # three objectives: bundled 3-D cones and a 4-facet cone (evaluator's definition works in any dimension)
             W = [[1, -2, 4], [4, 1, -2], [-2, 4, 1]] if rs.rand() < 0.4 else [[5, 2, 8], [8, 5, 2], [2, 8, 5]] if rs.rand() < 0.5 else [[1, 0, 0], [0, 1, 0], [0, 0, 1], [1, 1, -1]]
@@ -78,6 +83,8 @@ def _random_cases(args):
             V = np.round(rs.randn(n, dim), 3)
             if n > 3:
                 V[rs.randint(n)] = V[rs.randint(n)]                 # a duplicate
+        if forced:
+            V[-1] = V.min(axis=0) - 1.0          # the last element is strictly dominated by everything (every cone here contains the diagonal)
         o = _order(W)
         fast = [int(i) for i in o.get_pareto_set(V.copy())]
         Vl = [tuple(map(float, v)) for v in V]
